@@ -278,6 +278,45 @@ def main():
                     for mm, msg in rec.drain():
                         ctx.violation(mm, "%s: %s" % (cid, msg), cid)
         ctx.lap("oracle2")
+
+        # -------------------------------------------------------------- oracle 3: the library's own barycentric prolongation
+        # space.barycentric_representation() is the same space expressed on the barycentric refinement (same global dofs, its
+        # dof_transformation is the prolongation P): an operator assembled on it is P' A_fine P and must equal the operator on
+        # the space itself - exactly for the mass matrix (both integrate polynomials exactly), for all kinds and segment variants.
+        worst3 = 0.0
+        n3 = 0
+        for mname, mesh in nest[: (1 if ctx.quick else 3)]:
+            rng3 = ctx.rng("bary_nest", mname)
+            mesh3 = M.assign_domains(mesh, rng3, 3, values=[4, 1, 6]) if len(set(mesh.D.tolist())) < 2 else mesh
+            g3 = M.to_grid(mesh3)
+            topo3 = S.Topo(mesh3.V, mesh3.E)
+            for kind in ("RWG", "SNC", "P1", "DP0"):
+                for vi in range(4 if ctx.quick else 10):
+                    cid = "nest_bary_repr:%s:%s:v%d" % (mname, kind, vi)
+                    if not ctx.want(cid):
+                        continue
+                    opts = (S.draw_opts(rng3, mesh3, topo3, *KIND_ARGS[kind], variant=vi)[0] or {}) if vi else {}
+                    opts.pop("swapped_normals", None)
+                    with ctx.guard(cid, "nesting:barycentric_representation", allow=S.ALLOWED_REJECTIONS):
+                        s3 = S.make_space(api, g3, *KIND_ARGS[kind], **opts)
+                        b3 = s3.barycentric_representation()
+                        if b3 is None:
+                            ctx.count("no_barycentric_representation:" + kind)
+                            continue
+                        par = O.params(api, 4, 4)
+                        Ic = O.dense(O.boundary(api, "sparse", "identity", s3, s3, s3, parameters=par))
+                        Ib = O.dense(O.boundary(api, "sparse", "identity", b3, b3, b3, parameters=par))
+                        dev = O.rel(Ib, Ic) if Ib.shape == Ic.shape else np.inf
+                        worst3 = max(worst3, dev if np.isfinite(dev) else 0.0)
+                        n3 += 1
+                        sup = np.flatnonzero(np.asarray(s3.support))
+                        ctx.case(cid, {"mesh": mname, "space": kind, "opts": S.opts_key(opts), "rel_dev": dev, "support_starts_at_0": bool(len(sup) and sup[0] == 0)})
+                        if not (dev <= 1e-12):
+                            ctx.violation("nesting:barycentric_representation:mass:%s" % kind, "%s: mass matrix on the barycentric representation differs from the mass matrix of the space by %.3e (opts %s)"
+                                          % (cid, dev, S.opts_key(opts)), cid)
+        ctx.note("oracle3_worst_rel_dev", worst3)
+        ctx.note("oracle3_cases", n3)
+        ctx.lap("oracle3")
     ctx.note("launch_recorder", rec.summary())
     partial = ctx.only_case is not None or bool(ctx.args.only) or bool(ctx.worker)
     ctx.obligation("P1 and RWG/SNC saw >= 3 option combinations each", partial or all(len(cover.get(k, ())) >= 3 for k in ("P1", "RWG", "SNC")), {k: len(v) for k, v in cover.items()})
